@@ -114,8 +114,10 @@ def probe(exe, wdir, files, args=None, timeout=20):
             f.write(content if isinstance(content, bytes) else content.encode())
     t0 = time.time()
     try:
-        p = subprocess.run([exe, "main.asm", "-q", "-f", "binary", "-o", "out.bin"] + (args or []), cwd=wdir,
-                           stdout=subprocess.DEVNULL, stderr=subprocess.PIPE, timeout=timeout, preexec_fn=_limits)
+        # (a probe that misses the limit is repeated once on its own with a much larger one: a timeout is a verdict
+        #  here, and it must not depend on what else the machine is doing)
+        p = common.patient_run([exe, "main.asm", "-q", "-f", "binary", "-o", "out.bin"] + (args or []), timeout, retry_timeout=4 * timeout, cwd=wdir,
+                               stdout=subprocess.DEVNULL, stderr=subprocess.PIPE, preexec_fn=_limits)
         err = p.stderr.decode("utf-8", "replace")
         rc = p.returncode
     except subprocess.TimeoutExpired:
